@@ -560,6 +560,24 @@ def c05(ctx):
             if acc and up:
                 if (f[3] == "100") != isv4 or (f[3] == "010") != (not isv4):
                     ctx.S("is_ipv4/is_ipv6 does not report the family of the address present", op=op, input=repr(d), impl=cl)
+    # bracket contents with an embedded NUL and an explicit length covering the bytes behind it: never "exactly '[' addr ']'",
+    # so never accepted (S only: the model's contract is NUL-free input)
+    good = [b"1.2.3.4", b"255.255.255.255", b"IPv6:2001:db8::1", b"IPv6:::", b"IPv6:1:2:3:4:5:6:7:8", b"::1", b"1:2:3:4:5:6:1.2.3.4", b"IPv6:::ffff:1.2.3.4"]
+    nul = []
+    for a in good:
+        for junk in (b"", b"junk", b"]", b"x]", b".5", b":1"):
+            nul += [b"[" + a + b"\0" + junk + b"]", b"[" + a + b"]\0" + junk, b"[\0" + a + b"]", b"[" + a + b"\0]" + junk]
+        for k in range(1, len(a)):
+            nul.append(b"[" + a[:k] + b"\0" + a[k:] + b"]")
+    nul = list(dict.fromkeys(nul))
+    for m in MODES:
+        ops = ["E %d 0 %s" % (m, hx(b"a@" + d)) for d in nul]
+        c, _ = ctx.run("literal-nul%d" % m, "default", ops)
+        ctx.evals += len(ops)
+        for d, cl in zip(nul, c):
+            ctx.nontrivial.add("E %d 0 %s" % (m, hx(b"a@" + d)))
+            if fields(cl)[1] == "0":
+                ctx.S("address literal accepted although the bytes between the brackets contain a NUL (not exactly '[' addr ']')", op="E %d 0 %s" % (m, hx(b"a@" + d)), input=repr(d), impl=cl)
     # the per-part functions themselves (model correspondence; ']' and NUL after the address)
     a4 = list(dict.fromkeys(gen.ipv4_strings(ctx.tier, ctx.rng)))
     a6 = list(dict.fromkeys(gen.ipv6_shapes(ctx.tier, ctx.rng)))
